@@ -279,7 +279,8 @@ def oracle_search(spec, seed, run_dir, budget):
 
 # ------------------------------------------------------------------ verdict
 def load_known(pid):
-    p = os.path.join(ROOT, 'known_findings.json')
+    """committed, never written at run time: known_findings.d/<property>.json = {"findings": [...]}"""
+    p = os.path.join(ROOT, 'known_findings.d', '%s.json' % pid)
     if not os.path.exists(p):
         return []
     return [k for k in json.load(open(p)).get('findings', []) if k['property'] == pid]
